@@ -171,6 +171,7 @@ class Interp:
         self.cfg = cfg_of(model, func)
         self.family = {c.qualname: c for c in model.converter_family()}
         self.trace: t.List[Node] = []
+        self.iter_log: t.Dict[int, t.Any] = {}     # loop node id -> what its iterable evaluated to (first time)
         self._depth = 0
 
     # -- name resolution
@@ -260,6 +261,11 @@ class Interp:
                 return ('bound', base, '_converter')
             if inspect.ismodule(base):
                 return self.qual_value(f"{base.__name__}.{e.attr}")
+            if isinstance(base, TypeV) and base.kclass is not None and e.attr in ('__module__', '__name__', '__qualname__'):
+                real = base.kclass.real
+                if real is not None:
+                    return getattr(real, e.attr)
+                return 'user_module' if e.attr == '__module__' else base.kclass.name
             raise Undecided(f"attribute {unparse(e)}")
         if isinstance(e, ast.Tuple):
             out: t.List[t.Any] = []
@@ -504,6 +510,7 @@ class Interp:
             env2.update(kwargs)
             kind, val = sub._exec(env2)
             self.trace.extend(sub.trace)
+            self.iter_log.update(sub.iter_log)
             if kind == 'raise':
                 raise _Raised(val[0], val[1])
             return val[0]
@@ -604,6 +611,7 @@ class Interp:
                 st = n.ast
                 if n.id not in iters:
                     itv = self.ev(st.iter, env)   # type: ignore[attr-defined]
+                    self.iter_log.setdefault(n.id, itv)
                     if isinstance(itv, Marker) and itv.name in ('handlers', anchors.global_handlers(self.model)):
                         iters[n.id] = []          # no call-level handlers; global handlers answer NotImplemented
                     elif isinstance(itv, tuple):
@@ -835,8 +843,10 @@ LANDMARKS = ['call-level handlers', 'HasConverter', 'scalar table', 'args table'
              'enum', 'pathlike', 'tuple', 'sequence/set', 'mapping', 'scalar-subclass delegate']
 
 
-def classify_landmark(model: Model, func: FuncInfo, n: Node) -> t.Optional[str]:
+def classify_landmark(model: Model, func: FuncInfo, n: Node, iter_log: t.Optional[t.Dict[int, t.Any]] = None) -> t.Optional[str]:
     if n.kind == 'iter':
+        if iter_log is not None and isinstance(iter_log.get(n.id), Marker) and iter_log[n.id].name == anchors.global_handlers(model):
+            return 'global handlers'
         s = unparse(n.ast.iter)      # type: ignore[attr-defined]
         q = model.resolve(n.ast.iter, func.module, func)  # type: ignore[attr-defined]
         if len(func.params) > 1 and s == func.params[1]:
@@ -909,7 +919,7 @@ def rule_c18_r1_order(model: Model) -> RuleResult:
         raise AnalysisError(f"{func.loc()}: dispatch walk undecided: {e}")
     seen: t.List[t.Tuple[str, Node]] = []
     for n in it.trace:
-        lm = classify_landmark(model, func, n)
+        lm = classify_landmark(model, func, n, it.iter_log)
         if lm is not None and lm not in [s for s, _ in seen]:
             seen.append((lm, n))
     order = [s for s, _ in seen]
@@ -937,4 +947,30 @@ def rule_c18_r1_order(model: Model) -> RuleResult:
         node = seen[pos[bad[0]]][1]
         r.fail(MK, f"order {' < '.join(order)}", func.loc(node.ast),
                f"'{bad[0]}' is consulted before '{bad[1]}'; documented precedence: {' < '.join(head)} < structural arms")
+    # every kind that gets past the scalar tables meets the registered handlers: the loop over them is reached with the
+    # handler list itself (not an emptied or filtered stand-in), whatever the type is
+    gh = anchors.global_handlers(model)
+    gh_loops = [n for n in cfg_of(model, func).live_nodes() if n.kind == 'iter'
+                and any(model.resolve(x, func.module, func) == gh for x in ast.walk(n.ast.iter))]      # type: ignore[attr-defined]
+    if gh_loops:
+        skipped = []
+        try:
+            for (kd, _check, _doc) in catalogue():
+                it2 = Interp(model, func)
+                it2.run(kd)
+                for lp in gh_loops:
+                    if lp.id in it2.iter_log:
+                        v = it2.iter_log[lp.id]
+                        if not (isinstance(v, Marker) and v.name == gh):
+                            skipped.append((kd.name, lp))
+        except Undecided as e:
+            raise AnalysisError(f"{func.loc()}: dispatch walk undecided: {e}")
+        r.instances += 1
+        if skipped:
+            names = sorted({k for k, _ in skipped})
+            r.fail(MK, f"registered handlers not consulted for {names[:6]}{' ...' if len(names) > 6 else ''}", func.loc(skipped[0][1].ast),
+                   "for these kinds the loop over the registered (global) handlers runs over something else than the handler list: a handler "
+                   "registered for such a type is never asked, and the structural converter wins")
+        else:
+            r.ok()
     return r
